@@ -37,6 +37,9 @@ type RecStore struct {
 	// failPuts > 0: the next PutChangeSet is refused (a backend write failure), nothing is written
 	failPuts, injected int
 	failHook           func() // runs while the refused PutChangeSet is "in progress"
+	// afterGC (optional) runs after every SeekGC call has returned, in the calling (GC) goroutine and without
+	// the store's lock: the place to let something happen BETWEEN two passes of one GC cycle
+	afterGC func(pfx byte)
 }
 
 var errInjected = errors.New("injected backend write failure")
@@ -168,7 +171,13 @@ func (s *RecStore) SeekGC(rng storage.SeekRange, keepCont func(k, v []byte) (boo
 		b.GCPfx = rng.Prefix[0]
 	}
 	s.mu.Lock()
-	defer s.mu.Unlock()
+	defer func() {
+		hook := s.afterGC
+		s.mu.Unlock()
+		if hook != nil {
+			hook(b.GCPfx)
+		}
+	}()
 	err := s.probed("SeekGC", func() bool { return len(b.KV) > 0 }, func() error {
 		return s.inner.SeekGC(rng, func(k, v []byte) (bool, bool) {
 			keep, cont := keepCont(k, v)
